@@ -107,7 +107,7 @@ def run_job(prop, job, active_kf, seed, scratch_root, deadline=None):
     resf = os.path.join(scratch_root, safe + '.res.json')
     with open(specf, 'w') as f:
         json.dump(spec, f)
-    wall = spec['cpu_budget'] * 1.5 + 30
+    wall = spec['cpu_budget'] * 3 + 60       # generous: the watchdog only guards against a hung solver call
     t0 = time.time()
     env = child_env()
     env['TMPDIR'] = scratch
